@@ -310,6 +310,76 @@ def tamper_variants(D):
     return out
 
 
+def proxy_uri_case(exe, r, c, run, witness, stats):
+    """a request the application addresses with a Proxy-Uri option, sent on an OSCORE session:
+    RFC 8613 4.1.3.3 has the sender split it into Proxy-Scheme, Uri-Host and Uri-Port (outer,
+    for the proxy) and Uri-Path, Uri-Query (inner, protected).  The receiving node is a proxy
+    for a foreign authority: its proxy handler is handed the outer options, and the reference
+    opens the datagram and finds the rest inside"""
+    w, sim = setup(exe, r, dict(c, start=min(c["start"], 2 ** 40 - 1000)), False, None)
+    try:
+        sim.cmd("res 1 - kind=proxy")
+        srv = ref_ctx(c, False)
+        # (one request per session: the proxy of this scenario answers unprotected, so the
+        # client's first OSCORE exchange never completes and a second send would wait for it)
+        for k in range(1):
+            host = r.choice([b"other.example", b"h.example.com", b"a-rather-long-host-name.example.org"])
+            port = r.choice([None, None, 5683, 7777, 61616])
+            segs = [r.choice([b"abc", b"def", b"x", b"a-longer-segment-%d" % k])
+                    for _ in range(r.choice([0, 1, 2, 4]))]
+            query = [r.choice([b"x=1", b"y=22", b"flag"]) for _ in range(r.choice([0, 0, 1, 2]))]
+            uri = b"coap://" + host + (b":%d" % port if port else b"") + \
+                (b"/" + b"/".join(segs) if segs else b"") + (b"?" + b"&".join(query) if query else b"")
+            code = r.choice([1, 1, 2, 5])
+            pl = bytes(r.getrandbits(8) for _ in range(r.choice([3, 40]))) if code != 1 else b""
+            tokh = "7e%02x" % k
+            extra = r.choice(["", ",292=0102", ",17=32"])
+            if code == 5:
+                extra += ",12=2a"
+            mark = len(sim.log)
+            evs = sim.cmd("send 0 0 type=0 code=%d token=%s opts=35=%s%s%s" % (
+                code, tokh, uri.hex(), extra, " payload=" + pl.hex() if pl else ""))
+            sim.run(until=sim.elapsed() + 3000, quiesce=False)
+            stats["proxy_uri_requests"] = stats.get("proxy_uri_requests", 0) + 1
+            wv = dict(witness, proxy_uri=uri.decode(), code=code)
+            if not any(e["e"] == "sent" and e.get("mid", -1) >= 0 for e in evs):
+                run.violation("oscore-proxy-uri-request-refused", wv,
+                              "coap_send() refused the request with Proxy-Uri %s" % uri.decode())
+                continue
+            wires = [e for e in sim.log[mark:] if e["e"] == "wire" and e["from"].startswith("10.0.0.1")]
+            reqs = [e for e in sim.log[mark:] if e["e"] == "req" and e.get("n") == 1]
+            want_outer = [(3, host)] + ([(7, port.to_bytes(2, "big").lstrip(b"\0"))]
+                                        if port and port != 5683 else []) + [(39, b"coap")]
+            seen = []
+            if reqs and reqs[0]["opts"]:
+                for item in reqs[0]["opts"].split(";"):
+                    a, b = item.split("=")
+                    seen.append((int(a), bytes.fromhex(b)))
+            if not reqs or [x for x in seen if x[0] in (3, 7, 39)] != want_outer:
+                run.violation("oscore-proxy-uri-outer-options-differ", dict(wv, seen=repr(seen)),
+                              "Proxy-Uri %s: the proxy was handed %r, RFC 8613 4.1.3.3 gives %r" %
+                              (uri.decode(), [x for x in seen if x[0] in (3, 7, 39)], want_outer))
+                continue
+            try:
+                inner = O.unprotect_request(srv, canon(cw.decode(bytes.fromhex(wires[0]["b"]),
+                                                                 "udp")))[0]
+            except Exception as ex:
+                run.violation("oscore-proxy-uri-request-does-not-open", wv,
+                              "the protected request does not open with the reference: %r" % (ex,))
+                continue
+            got_in = [(n, v) for n, v in inner["options"] if n in (11, 15)]
+            want_in = [(11, x) for x in segs] + [(15, x) for x in query]
+            if got_in != want_in or inner["payload"] != pl:
+                run.violation("oscore-proxy-uri-inner-options-differ", wv,
+                              "Proxy-Uri %s: protected inside %r payload %d bytes, expected %r "
+                              "payload %d bytes" % (uri.decode(), got_in, len(inner["payload"]),
+                                                    want_in, len(pl)))
+        world.teardown_check(run, "C14/proxy-uri", w, witness)
+    finally:
+        if not w.closed:
+            w.close(kill=True)
+
+
 def observe_history(exe, r, c, run, witness, stats):
     """An observation under OSCORE: registration, notifications, re-registration and
     cancellation with the same token.  Every response must reach the client's handler and
@@ -483,6 +553,8 @@ def work(job):
             world.teardown_check(run, "C14", w, witness)
             if it % 3 == 0:
                 observe_history(exe, r, c, run, dict(witness), stats)
+            if it % 3 == 1 and info_fits(c):
+                proxy_uri_case(exe, r, c, run, dict(witness), stats)
             if D is not None and it % tamper_every == 0:
                 # tamper sweep against a fresh server: all variants first, then the genuine one
                 w2, sim2 = setup(exe, r, c, False, rsp)
